@@ -348,6 +348,7 @@ func checkC25(w *World, r *Run) {
 	}
 	checkC25VersionPaging(w, r)
 	checkC07DeleteCondition(w, r)
+	checkC25ListingAge(w, r)
 	checkC25TagPresence(w, r)
 	r.NotCovered("due-time arithmetic (rounding to the next midnight UTC), retention counting over version orders, tag/size filter evaluation inside LifecycleRuleMatchesObject")
 	_ = types.Universe
